@@ -14,6 +14,10 @@ open XotModel.Props
 #print axioms C12_prefixes
 #print axioms C12_store
 #print axioms C12_store_fields
+#print axioms C12_serialises_is_to_string
+#print axioms C12_clone_roundtrip
+#print axioms C12_clone_roundtrip_strict
+#print axioms C12_clone_roundtrip_source
 #print axioms C12_sepB_of_inv
 #print axioms C12_locality_call
 #print axioms C12_locality_cloneNode
